@@ -2,6 +2,7 @@ package main
 
 import (
 	"go/ast"
+	"go/constant"
 	"go/types"
 )
 
@@ -36,4 +37,55 @@ func newError(c *FnCtx, x *ast.CallExpr, fobj *types.Func, args []string, st *St
 	}
 	r := c.newRef(st, "err")
 	return []string{"(ibox " + c.tt.tidName("error!dynamic") + " 0 \"\" false fpzero " + r + " nilSlice)"}
+}
+
+// bufferCall models bytes.Buffer / strings.Builder methods on a local accumulator variable.
+func (c *FnCtx) bufferCall(x *ast.CallExpr, fobj *types.Func, recvExpr ast.Expr, st *State) []string {
+	if _, isPtr := c.typeOf(recvExpr).Underlying().(*types.Pointer); isPtr {
+		c.fail(x.Pos(), "buffer accessed through a pointer is not modelled")
+	}
+	cur := c.eval(recvExpr, st)
+	set := func(v string) {
+		if c.specMode > 0 {
+			c.fail(x.Pos(), "buffer mutation in specification")
+		}
+		c.assignTo(recvExpr, c.name(st, "buf", v, sString), st)
+	}
+	runeStr := func(a ast.Expr) string {
+		if tv, ok := c.info().Types[a]; ok && tv.Value != nil {
+			if n, ok2 := constant.Int64Val(constant.ToInt(tv.Value)); ok2 && n >= 0 && n < 128 {
+				return strLit(string(rune(n)))
+			}
+		}
+		v := c.eval(a, st)
+		c.declareFun("strOfRune", []string{sInt}, sString)
+		r := "(strOfRune " + v + ")"
+		if c.specMode == 0 {
+			st.addFact(implies(and("(<= 0 "+v+")", "(< "+v+" 128)"), eq(r, "(str.from_code "+v+")")))
+			st.addFact(and("(>= (str.len "+r+") 1)"))
+		}
+		return r
+	}
+	switch fobj.Name() {
+	case "WriteRune":
+		set("(str.++ " + cur + " " + runeStr(x.Args[0]) + ")")
+		return []string{c.fresh("n", sInt), "inil"}
+	case "WriteByte":
+		set("(str.++ " + cur + " " + runeStr(x.Args[0]) + ")")
+		return []string{"inil"}
+	case "WriteString":
+		s := c.eval(x.Args[0], st)
+		set("(str.++ " + cur + " " + s + ")")
+		return []string{"(blen " + s + ")", "inil"}
+	case "String":
+		return []string{cur}
+	case "Len":
+		c.blenFacts(st, cur)
+		return []string{"(blen " + cur + ")"}
+	case "Reset":
+		set(`""`)
+		return nil
+	}
+	c.fail(x.Pos(), "unsupported buffer method %s", fobj.Name())
+	return nil
 }
